@@ -11,8 +11,9 @@
 //  V2 levels      validityLevel(b) <= validityLevel(b.pprev)   (=> a connected block has only connected ancestors);
 //                 a live ALT block at level >= CONNECTED that is not the root has HAS_PAYLOADS
 //  V3 excl        not (level == CAN_BE_APPLIED and FAILED_POP)
-//  F1 failed-down isFailed(b.pprev)  <=>  b has BLOCK_FAILED_CHILD   (every descendant of an invalid block is failed,
-//                 and FAILED_CHILD is carried only below a failed block; the root never carries it)
+//  F1 failed-down isFailed(b.pprev)  =>  b has BLOCK_FAILED_CHILD   (every descendant of an invalid block is failed; the root
+//                 never carries it). The converse is NOT an invariant of the code: removeSubtree drops FAILED_POP of the
+//                 removed blocks but keeps FAILED_CHILD of their descendants (stale until a revalidation passes over it)
 //  T1 tips        getTips() = { live b | canBeATip(b) and no child canBeATip }  with canBeATip = !deleted && isValid(validTipLevel),
 //                 validTipLevel = CONNECTED (ALT) / VALID_TREE (VBK, BTC).  Weakened to "getTips() is a subset" once a
 //                 non-root block is finalized (finalizeBlockImpl drops outdated tips that still exist)
@@ -106,7 +107,6 @@ inline void structural(const Tree& t, const std::string& name, bool hasActiveFla
       if (lvl > plvl) bad("V2", nm(*b) + " level " + std::to_string(lvl) + " above parent level " + std::to_string(plvl));
       // F1
       if (p->isFailed() && !b->hasFlags(BLOCK_FAILED_CHILD)) bad("F1", nm(*b) + " lacks FAILED_CHILD below failed " + nm(*p));
-      if (!p->isFailed() && b->hasFlags(BLOCK_FAILED_CHILD)) bad("F1", nm(*b) + " has FAILED_CHILD below non-failed " + nm(*p));
     } else if (b->pprev == nullptr) {
       if (b->hasFlags(BLOCK_FAILED_CHILD)) bad("F1", "root has FAILED_CHILD");
     }
